@@ -3,6 +3,7 @@
 package props
 
 import (
+	"bufio"
 	"bytes"
 	"encoding/binary"
 	"encoding/hex"
@@ -14,6 +15,7 @@ import (
 
 	"verifharness/internal/core"
 	"verifharness/internal/imggen"
+	"verifharness/internal/src"
 )
 
 // C16 — ICC header fields decoded as ICC.1 lays them out.
@@ -125,6 +127,20 @@ func c16Check(h []byte, via string) (kind, msg string) {
 			}()
 			p, err = res.MD.ICCProfile()
 		}()
+	case "bufio@4000": // the header starts at stream offsets 3990..4015 behind a default bufio.Reader
+		for off := 3990; off <= 4015 && pan == nil && err == nil; off += 5 {
+			stream := append(make([]byte, off), prof...)
+			br := bufio.NewReader(bytes.NewReader(stream))
+			_, _ = br.Discard(off)
+			p, err, pan = readProfile(br)
+			if err == nil && pan == nil && p != nil && e.SignatureOK {
+				if f, d := c16Compare(e, p); f != "" {
+					return "field/" + f, d + fmt.Sprintf(" (header %x at stream offset %d behind bufio)", h, off)
+				}
+			}
+		}
+	case "short-reads":
+		p, err, pan = readProfile(shortByteReader{src.New(prof).Sizes(1, 2, 3, 5)})
 	default:
 		p, err, pan = readProfile(bytes.NewReader(prof))
 	}
@@ -243,10 +259,12 @@ func runC16(r *core.Run) {
 		}
 		r.AddEvals(1)
 		if i%17 == 0 {
-			if kind, msg := c16Check(h, "png"); kind != "" {
-				r.Violate("header", kind+"/png", msg, c16Case{Header: hex.EncodeToString(h), Via: "png"})
+			for _, via := range []string{"png", "bufio@4000", "short-reads"} {
+				if kind, msg := c16Check(h, via); kind != "" {
+					r.Violate("header", kind+"/"+via, msg, c16Case{Header: hex.EncodeToString(h), Via: via})
+				}
+				r.AddEvals(1)
 			}
-			r.AddEvals(1)
 		}
 		if nontrivial(h) {
 			r.NTHash(fnv64(h))
